@@ -16,6 +16,74 @@ def run(workdir, specs, alphabet, envsets, maxlen, cfg="OpModelFixed", timeout=3
     for p in set(res.printed("OP")):
         o = json.loads(p)
         cases.append({"si": o["si"], "env": sorted(o["env"]), "argv": ["".join(t) for t in o["argv"]], "accepted": o["accepted"], "steps": o["steps"],
+                      "hist": [(h["s"], tuple("".join(t) for t in h["args"]), h["ro"]) for h in o["hist"]], "graph": o["graph"] or None,
                       "binds": frozenset((e["kind"] + ":" + e["name"], tuple("".join(v) for v in e["vals"])) for e in o["binds"])})
     cases.sort(key=lambda c: (c["si"], c["env"], len(c["argv"]), c["argv"]))
     return res, cases
+
+
+def dfs_numbering(graph):
+    """the numbering verif_export.go: verifStates gives the states of the real automaton: depth-first from the root, transitions in order.
+    Returns {model state id (1-based) -> dump id (0-based)}"""
+    ids, order = {}, []
+
+    def visit(s):
+        stack = [s]
+        # recursive DFS in transition order (iterative to be safe)
+        def rec(x):
+            if x in ids:
+                return
+            ids[x] = len(order)
+            order.append(x)
+            for t in graph["tr"][x - 1]:
+                rec(t["n"])
+        rec(s)
+    import sys
+    sys.setrecursionlimit(10000)
+    visit(graph["root"])
+    return ids
+
+
+def model_label(t):
+    if t["k"] == "arg":
+        return "A:" + t["a"]
+    if t["k"] == "opt":
+        return "O:" + t["a"]
+    if t["k"] == "grp":
+        return "G:" + ",".join(t["xs"])
+    if t["k"] == "end":
+        return "E"
+    return "?" + t["k"]
+
+
+def same_automaton(graph, dump):
+    """is the model's prepared automaton the real one, state by state and transition by transition (after the DFS renumbering)?
+    dump: the harness's VerifAutomaton with labels as produced by vlib/structeq.label"""
+    ids = dfs_numbering(graph)
+    if len(ids) != len(dump["term"]):
+        return "model has %d reachable states, the library %d" % (len(ids), len(dump["term"]))
+    for m, d in ids.items():
+        if graph["term"][m - 1] != dump["term"][d]:
+            return "terminal flag of state %d differs" % d
+        mt = [(model_label(t), ids[t["n"]]) for t in graph["tr"][m - 1]]
+        dt = [(t["l"], t["n"]) for t in dump["trans"][d]]
+        if mt != dt:
+            return "transitions of state %d: model %s, library %s" % (d, mt, dt)
+    return None
+
+
+def compare_history(case, graph, events):
+    """None if the library's search made exactly the Matcher.Match calls the model's search makes: for every call of apply that
+    reaches its matchers (model history), one call per transition of that state, in order, with the same arguments and flag.
+    (Transition objects are shared between states after simplify, so a recorded call does not identify its state: the comparison
+    is on the flattened sequence of (matcher label, arguments, options-ended flag).)"""
+    from . import structeq
+    want = []
+    for st, args, ro in case["hist"]:
+        for t in graph["tr"][st - 1]:
+            want.append((model_label(t), args, ro))
+    got = [(structeq.label(ev["l"]), tuple(ev["args"]), ev["ro"]) for ev in events]
+    if want == got:
+        return None
+    k = next((i for i, (a, b) in enumerate(zip(want, got)) if a != b), min(len(want), len(got)))
+    return "matcher call %d: model %s, library %s (model %d calls, library %d)" % (k, want[k] if k < len(want) else None, got[k] if k < len(got) else None, len(want), len(got))
